@@ -595,7 +595,7 @@ func (o *oracleCtx) checkQueries(step int, qs []Query, ob Obs, img *SImage) {
 	for _, q := range qs {
 		o.tick("query")
 		sels := q.Sels
-		if q.Kind == "data" {
+		if q.Kind == "data" || q.Kind == "meta" {
 			sels = []Selector{{Kind: SID, N: int64(q.ID)}}
 		}
 		wantErr := ""
@@ -653,6 +653,8 @@ func (o *oracleCtx) checkQueries(step int, qs []Query, ob Obs, img *SImage) {
 				// multiple-found vs an error on a later descriptor: order of discovery
 				o.add("C13", step, "", "query %s answered %q, expected %q", desc, q.Err, wantErr)
 			}
+		case q.Kind == "meta":
+			// judged by the model (coq/Meta.v) and, for every descriptor, by AccessorFindings
 		case q.Kind == "data":
 			got, ok := region(ob.Store, wantDesc[0])
 			if !ok || !bytes.Equal(got, q.Bytes) {
